@@ -218,7 +218,6 @@ theorem prefix_verdict_is_cascade (s : DS.DSymData) (f : Facts) (hf : FactsOf s 
     a `Yes` (`simplify` succeeded, canonical key of the cubic tiling) are not modelled. -/
 theorem yes_carries_certificate (s : DS.DSymData) (f : Facts) (hf : FactsOf s f)
     (hs : DS.ValidTables s) (hsz : 1 ≤ s.size)
-    (hF : ∀ oc fg, DS.orientedCover s = .ok oc → FG.fundamentalGroup oc = .ok fg → D3.FuelOK fg)
     (hyes : decideVerdict f = .yes) :
     f.simplifyOk = true ∧ f.keyIsCubic = true ∧
     ∃ inv cov, orbifoldInvariant s = .ok inv ∧ inv ∈ Tables.euclideanInvariants ∧
@@ -236,7 +235,7 @@ theorem yes_carries_certificate (s : DS.DSymData) (f : Facts) (hf : FactsOf s f)
       rw [e1] at h1
       unfold inInvariantTable at h1
       exact List.contains_iff_mem.mp h1
-    have hcert := C15.ptc_certificate s cov hs hsz hF ho
+    have hcert := C15.ptc_certificate s cov hs hsz ho
     rcases Tab.token_ok inv hmem with hw | hstray
     · exact ⟨h3, h4, inv, cov, hinv, hmem, hw, Tab.token_reachable inv hmem, ho, hcert.1, hcert.2⟩
     · -- a stray comment token is never an output of `orbifold_invariant`
@@ -249,14 +248,13 @@ theorem yes_carries_certificate (s : DS.DSymData) (f : Facts) (hf : FactsOf s f)
     branching number 1 on every adjacent 2-orbit. -/
 theorem yes_cover_is_a_branchfree_oriented_covering (s : DS.DSymData) (f : Facts) (hf : FactsOf s f)
     (hs : DS.ValidSym s) (hsz : 1 ≤ s.size)
-    (hF : ∀ oc fg, DS.orientedCover s = .ok oc → FG.fundamentalGroup oc = .ok fg → D3.FuelOK fg)
     (hyes : decideVerdict f = .yes) :
     ∃ cov, D3.pseudoToroidalCover s = .ok (some cov) ∧ cov.view.isOriented = true ∧
       DS.ValidSym cov ∧ cov.isCompletePartial = true ∧
       ∀ i d, i < 3 → 1 ≤ d → d ≤ cov.size → cov.vPartial i (i + 1) d = .ok (some 1) := by
-  obtain ⟨_, _, _, cov, _, _, _, _, ho, _, _⟩ := yes_carries_certificate s f hf hs.toValidTables hsz hF hyes
-  obtain ⟨hb, hv, hc, _⟩ := C15.ptc_result_is_branchfree s cov hs hsz hF ho
-  exact ⟨cov, ho, C15.ptc_result_is_oriented s cov hs.toValidTables hsz hF ho, hv, hc, hb⟩
+  obtain ⟨_, _, _, cov, _, _, _, _, ho, _, _⟩ := yes_carries_certificate s f hf hs.toValidTables hsz hyes
+  obtain ⟨hb, hv, hc, _⟩ := C15.ptc_result_is_branchfree s cov hs hsz ho
+  exact ⟨cov, ho, C15.ptc_result_is_oriented s cov hs.toValidTables hsz ho, hv, hc, hb⟩
 
 /-- **yes_cover_group_is_Z3_presented.**  For a valid connected D-symbol,
     the orbifold fundamental group of the cover behind a `Yes` of the model is isomorphic to a
@@ -265,20 +263,19 @@ theorem yes_cover_is_a_branchfree_oriented_covering (s : DS.DSymData) (f : Facts
     (Props/C15 `ptc_cover_group_presentation`): the homology part of the certificate, proved. -/
 theorem yes_cover_group_is_Z3_presented (s : DS.DSymData) (f : Facts) (hf : FactsOf s f)
     (hs : DS.ValidSym s) (hsz : 1 ≤ s.size)
-    (hF : ∀ oc fg, DS.orientedCover s = .ok oc → FG.fundamentalGroup oc = .ok fg → D3.FuelOK fg)
     (hconn : s.view.isConnected = true)
     (hyes : decideVerdict f = .yes) :
     ∃ (cov : DS.DSymData) (gens srels : List (List Int)), D3.pseudoToroidalCover s = .ok (some cov) ∧
       Inv.abelianInvariants gens.length srels = .ok [0, 0, 0] ∧
       SpecC14.expected gens.length srels = [0, 0, 0] ∧
       Nonempty (FGP.TGroup cov ≃* PresentedGroup (CosetP.relSet gens.length srels)) := by
-  obtain ⟨_, _, _, cov, _, _, _, _, ho, _, _⟩ := yes_carries_certificate s f hf hs.toValidTables hsz hF hyes
-  obtain ⟨gens, srels, h1, h2, h3⟩ := C15.ptc_cover_group_presentation s cov hs hsz hF hconn ho
+  obtain ⟨_, _, _, cov, _, _, _, _, ho, _, _⟩ := yes_carries_certificate s f hf hs.toValidTables hsz hyes
+  obtain ⟨gens, srels, h1, h2, h3⟩ := C15.ptc_cover_group_presentation s cov hs hsz hconn ho
   exact ⟨cov, gens, srels, ho, h1, h2, h3⟩
 
 /-- **yes_certificate_sound** — the "independently checkable certificate" sentence of the
     property as a theorem about the model (everything before `simplify`).  If the facts agree with
-    the models and the cascade says `Yes`, then for a valid connected D-symbol `s` (and `FuelOK`):
+    the models and the cascade says `Yes`, then for a valid connected D-symbol `s`:
     the model of `orbifold_invariant` returned a well-formed, reachable entry of the table, and the
     model of `pseudo_toroidal_cover` returned a symbol `cov` which is
     * a **finite covering** of `s`: `rows(t)·|oc|` chambers, `|oc| ∈ {|s|, 2|s|}`, valid complete
@@ -294,7 +291,6 @@ theorem yes_cover_group_is_Z3_presented (s : DS.DSymData) (f : Facts) (hf : Fact
     `decide_yes_iff` but have no model. -/
 theorem yes_certificate_sound (s : DS.DSymData) (f : Facts) (hf : FactsOf s f)
     (hs : DS.ValidSym s) (hsz : 1 ≤ s.size) (hconn : s.view.isConnected = true)
-    (hF : ∀ oc fg, DS.orientedCover s = .ok oc → FG.fundamentalGroup oc = .ok fg → D3.FuelOK fg)
     (hyes : decideVerdict f = .yes) :
     f.simplifyOk = true ∧ f.keyIsCubic = true ∧
     ∃ (inv : String) (cov : DS.DSymData),
@@ -318,14 +314,14 @@ theorem yes_certificate_sound (s : DS.DSymData) (f : Facts) (hf : FactsOf s f)
         SpecC14.expected gens.length srels = [0, 0, 0] ∧
         Nonempty (Abelianization (FGP.TGroup cov) ≃* Multiplicative (Fin 3 → ℤ)) := by
   obtain ⟨h3, h4, inv, cov, hinv, hmem, hw, hr, ho, hcf, _⟩ :=
-    yes_carries_certificate s f hf hs.toValidTables hsz hF hyes
-  obtain ⟨hb, hv, hc, _⟩ := C15.ptc_result_is_branchfree s cov hs hsz hF ho
+    yes_carries_certificate s f hf hs.toValidTables hsz hyes
+  obtain ⟨hb, hv, hc, _⟩ := C15.ptc_result_is_branchfree s cov hs hsz ho
   obtain ⟨oc, fg, t, hsoc, hdim, hfg, hV, gens, srels, hoc, hsize, hidx, heK, heP, _, _, hai, hexp⟩ :=
-    C15.ptc_cover_group_is_selected_subgroup s cov hs hsz hF hconn ho
+    C15.ptc_cover_group_is_selected_subgroup s cov hs hsz hconn ho
   exact ⟨h3, h4, inv, cov, hinv, hmem, hw, hr, ho, hcf,
-    C15.ptc_result_is_oriented s cov hs.toValidTables hsz hF ho, hv, hc, hb,
+    C15.ptc_result_is_oriented s cov hs.toValidTables hsz ho, hv, hc, hb,
     oc, fg, t, hsoc, hdim, hfg, hV, gens, srels, hoc, hsize, hidx, heK, heP, hai, hexp,
-    C15.ptc_cover_has_H1_Z3 s cov hs hsz hF hconn ho⟩
+    C15.ptc_cover_has_H1_Z3 s cov hs hsz hconn ho⟩
 
 /-! ### open (not theorems): the statements, for the record -/
 
